@@ -21,6 +21,13 @@ func fieldVal[T any](obj yobj, key string) (v T, ok bool, err error) {
 	}
 
 	if val == nil {
+		// A null object has nothing to be read from it and, being a nil map,
+		// cannot be written to, so treat it the same way as an absent one.
+		// Other null values still stand for the zero value of T.
+		if _, isObj := any(v).(yobj); isObj {
+			return v, false, nil
+		}
+
 		return v, true, nil
 	}
 
